@@ -22,6 +22,33 @@ Proof.
   specialize (H _ E). cbn in H. now apply negb_true_iff in H.
 Qed.
 
+(** the deep-copy routes of the stochastic classes (six inherited base-class methods + G_E_Phenotyping's): they exist in the source, take
+    no snapshot of a generator, and reach explicit sources only (up to the root causes that remain) *)
+Lemma deepcopy_resolved : ids_of deepcopy_routes = Some deepcopy_ids /\ length deepcopy_ids = 7%nat.
+Proof. split; vm_compute; reflexivity. Qed.
+Lemma deepcopy_check : forallb (fun p => negb (has COPIES (direct tbl p)) && sub (fget fp_excl p) EXPLICIT_OK) deepcopy_ids = true.
+Proof. vm_compute. reflexivity. Qed.
+Lemma deepcopy_exist_check : forallb (fun nm => match id_of nm with Some _ => true | None => false end) deepcopy_routes = true.
+Proof. vm_compute. reflexivity. Qed.
+Theorem deepcopy_routes_share :
+  (forall nm, In nm deepcopy_routes -> exists p, id_of nm = Some p) /\
+  forall nm p, In nm deepcopy_routes -> id_of nm = Some p ->
+    has COPIES (direct tbl p) = false /\ forall k, reach tbl p k -> In k root_ids \/ sub (direct tbl k) EXPLICIT_OK = true.
+Proof.
+  split.
+  - intros nm Hin. pose proof deepcopy_exist_check as H. rewrite forallb_forall in H. specialize (H _ Hin).
+    destruct (id_of nm) as [p|]; [now exists p | discriminate].
+  - intros nm p Hin Hid.
+    pose proof (FPP.ids_of_In _ _ (proj1 deepcopy_resolved) _ _ Hin Hid) as Hp.
+    pose proof deepcopy_check as Hall. rewrite forallb_forall in Hall. specialize (Hall _ Hp).
+    apply andb_prop in Hall as [H1 H2]. split; [now apply negb_true_iff in H1|].
+    intros k Hr.
+    pose proof (FPP.postfix_sound dir_excl tbl fp_excl FPP.post_excl p k Hr) as Hs.
+    destruct (pmem k root_ids) eqn:Em; [left; now apply FPP.pmem_In|]. right.
+    rewrite FPP.direct_find. destruct (PositiveMap.find k tbl) as [[d s]|]; [|apply FPP.sub_zero].
+    unfold dir_excl in Hs. rewrite Em in Hs. eapply FPP.sub_trans; eauto.
+Qed.
+
 (** the mask G_E_Phenotyping.__deepcopy__ has with rng = copy.deepcopy(self.rng, memo): not explicit-only *)
 Lemma snapshot_mask_refuted : sub (N.lor SELF COPIES) EXPLICIT_OK = false /\ has COPIES (N.lor SELF COPIES) = true.
 Proof. split; reflexivity. Qed.
@@ -167,25 +194,49 @@ Section Theorems.
         destruct (H3 (upd v (LEx i) (snd (f (w (LEx i)))))) as [Ha Hb]; [now rewrite !WP.upd_same|].
         split; [now f_equal | exact Hb].
   Qed.
+
+  (** A DEEP COPY BEHAVES AS ITS SOURCE (the inherited [__deepcopy__] shares the generator) *)
+  Theorem deepcopy_is_source : forall (e : env) (d s : nat) (f : G -> O * G) (w : world),
+    fst (run_obj [deepcopy_step d s; SUse d f] e w) = out_unit :: fst (run_obj [SUse s f] e w) /\
+    snd (run_obj [deepcopy_step d s; SUse d f] e w) = snd (run_obj [SUse s f] e w).
+  Proof. exact copy_is_source. Qed.
+
+  (** THE RNG SETTER RE-POINTS THE DEFAULT OPTIMISER: after [prot.rng = generator i], whatever generators the protocol and the default
+      optimiser it built held before (any bindings e), every sequence of stochastic calls on the protocol and on that optimiser draws
+      from generator i only *)
+  Lemma only_uses i (e : env) (us : list (nat * (G -> O * G))) : (forall u, In u us -> e (fst u) = LEx i) -> only i e (uses us).
+  Proof.
+    induction us as [|u t IH]; intros H; [exact I|]. cbn. split; [apply H; now left|]. apply IH. intros v Hv. apply H. now right.
+  Qed.
+  Theorem rng_setter_only : forall (i prot algo : nat) (e : env) (us : list (nat * (G -> O * G))),
+    (forall u, In u us -> fst u = prot \/ fst u = algo) -> only i e (rng_setter prot algo (LEx i) ++ uses us).
+  Proof.
+    intros i prot algo e us H. cbn. split; [reflexivity|]. apply only_uses. intros u Hu.
+    unfold bind at 1. destruct (Nat.eqb algo (fst u)) eqn:Ea; [apply bind_same|].
+    destruct (H u Hu) as [E|E].
+    - rewrite E. apply bind_same.
+    - rewrite E in Ea. rewrite Nat.eqb_refl in Ea. discriminate.
+  Qed.
 End Theorems.
 
-(** ** a copy that snapshots the generator breaks the property (what C08-pheno-deepcopy-rng did) *)
+(** ** a copy that snapshots the generator breaks the property (what C08-pheno-deepcopy-rng did, and what python's default deep copy did to
+    every other stochastic class before C08-default-deepcopy-snapshots-rng was repaired: [old_default_deepcopy_step]) *)
 Definition zuse : Z -> Z * Z := fun g => (g, (g + 1)%Z).
 Definition zseed (s : Z) : call Z Z := seed_call (fun s => s) (fun s => s) 0%Z s.
 
 (** (a) global stream: the snapshot copy is made in the history (object 0 was constructed with rng = None), then seed(s), then the
         copy is used: its output is the numpy state at COPY time, not a function of the seed *)
 Theorem snapshot_copy_not_reproducible : exists (h p : list (step Z Z)) (e : env) (s : Z) (w1 w2 : world Z),
-  all_np e /\ Forall (fun st => match st with SSnap _ _ _ => True | _ => False end) h /\
+  all_np e /\ Forall (fun st => exists d s j, st = old_default_deepcopy_step d s j) h /\
   fst (run_obj 0%Z (SCall (zseed s) :: p) (env_after e h) (snd (run_obj 0%Z h e w1))) <>
   fst (run_obj 0%Z (SCall (zseed s) :: p) (env_after e h) (snd (run_obj 0%Z h e w2))).
 Proof.
-  exists [SSnap 1 0 7], [SUse 1 zuse], (fun _ => LNp), 5%Z, (fun _ => 0%Z), (fun _ => 1%Z).
-  split; [intro o; reflexivity|]. split; [repeat constructor|]. vm_compute. discriminate.
+  exists [old_default_deepcopy_step 1 0 7], [SUse 1 zuse], (fun _ => LNp), 5%Z, (fun _ => 0%Z), (fun _ => 1%Z).
+  split; [intro o; reflexivity|]. split; [constructor; [now exists 1%nat, 0%nat, 7%nat | constructor]|]. vm_compute. discriminate.
 Qed.
 (** ... whereas the sharing copy of the same history is reproducible (instance of [obj_history_reproducible]) *)
 Example sharing_copy_reproducible : forall (s : Z) (w1 w2 : world Z),
-  let e := (fun _ => LNp) : env in let h := [SCopy 1 0] : list (step Z Z) in let p := [SUse 1 zuse; SCopy 2 1; SUse 2 zuse; SUse 0 zuse] in
+  let e := (fun _ => LNp) : env in let h := [deepcopy_step 1 0] : list (step Z Z) in let p := [SUse 1 zuse; SCopy 2 1; SUse 2 zuse; SUse 0 zuse] in
   fst (run_obj 0%Z (SCall (zseed s) :: p) (env_after e h) (snd (run_obj 0%Z h e w1))) =
   fst (run_obj 0%Z (SCall (zseed s) :: p) (env_after e h) (snd (run_obj 0%Z h e w2))).
 Proof.
@@ -200,26 +251,43 @@ Qed.
 (** (b) explicit generator: the snapshot copy leaves the supplied generator unconsumed, the source consumes it *)
 Theorem snapshot_copy_does_not_consume : exists (e : env) (w : world Z),
   e 0%nat = LEx 0 /\
-  snd (run_obj 0%Z [SSnap 1 0 7; SUse 1 zuse] e w) (LEx 0) = w (LEx 0) /\
+  snd (run_obj 0%Z [old_default_deepcopy_step 1 0 7; SUse 1 zuse] e w) (LEx 0) = w (LEx 0) /\
   snd (run_obj 0%Z [SUse 0 zuse] e w) (LEx 0) <> w (LEx 0) /\
-  snd (run_obj 0%Z [SCopy 1 0; SUse 1 zuse] e w) (LEx 0) = snd (run_obj 0%Z [SUse 0 zuse] e w) (LEx 0).
+  snd (run_obj 0%Z [deepcopy_step 1 0; SUse 1 zuse] e w) (LEx 0) = snd (run_obj 0%Z [SUse 0 zuse] e w) (LEx 0).
 Proof.
   exists (fun _ => LEx 0), (fun _ => 3%Z). split; [reflexivity|]. split; [vm_compute; reflexivity|].
   split; [vm_compute; discriminate | vm_compute; reflexivity].
 Qed.
 
-(** (c) the rng SETTER of a selection protocol (finding C08-selprot-rng-setter-stale-optimiser): object 0 = the protocol, object 1 = the
-        default optimiser its constructor built from the constructor's generator (rng = None: numpy's global stream).  [prot.rng = g]
-        rebinds object 0 only; select() lets the optimiser draw, then samples the configuration: the global stream is advanced although
-        the caller supplied generator 0.  Had the setter re-pointed the optimiser as well, the program would be isolated. *)
-Definition setter_stale_prog : list (step Z Z) := [SNew 0 LNp; SCopy 1 0; SNew 0 (LEx 0); SUse 1 zuse; SUse 0 zuse].
-Definition setter_repointing_prog : list (step Z Z) := [SNew 0 LNp; SCopy 1 0; SNew 0 (LEx 0); SCopy 1 0; SUse 1 zuse; SUse 0 zuse].
-Theorem setter_stale_part_not_isolated : exists (e : env) (w : world Z),
-  snd (run_obj 0%Z setter_stale_prog e w) LNp <> w LNp /\
-  snd (run_obj 0%Z setter_repointing_prog e w) LNp = w LNp /\ snd (run_obj 0%Z setter_repointing_prog e w) LPy = w LPy.
+(** (c) the rng SETTER of a selection protocol (finding C08-selprot-rng-setter-stale-optimiser, repaired): object 0 = the protocol, object 1 =
+        the default optimiser its constructor built from the constructor's generator (rng = None: numpy's global stream).  FORMER code
+        ([old_rng_setter]): [prot.rng = g] rebinds object 0 only; select() lets the optimiser draw, then samples the configuration: the
+        global stream is advanced although the caller supplied generator 0.  CURRENT code ([rng_setter]): the optimiser is re-pointed as
+        well and the program is isolated (general statement: [rng_setter_only] + [obj_explicit_isolated]). *)
+Definition old_setter_stale_prog : list (step Z Z) := [SNew 0 LNp; SCopy 1 0] ++ old_rng_setter 0 1 (LEx 0) ++ [SUse 1 zuse; SUse 0 zuse].
+Definition setter_prog : list (step Z Z) := [SNew 0 LNp; SCopy 1 0] ++ rng_setter 0 1 (LEx 0) ++ [SUse 1 zuse; SUse 0 zuse].
+Theorem old_setter_stale_part_not_isolated : exists (e : env) (w : world Z),
+  snd (run_obj 0%Z old_setter_stale_prog e w) LNp <> w LNp /\
+  snd (run_obj 0%Z setter_prog e w) LNp = w LNp /\ snd (run_obj 0%Z setter_prog e w) LPy = w LPy.
 Proof.
   exists (fun _ => LNp), (fun _ => 3%Z). split; [vm_compute; discriminate|]. split; vm_compute; reflexivity.
 Qed.
+
+(** the rng setter at full strength: any prior bindings, any generator i, any sequence of stochastic calls on the protocol and on its
+    default optimiser after [prot.rng = generator i]: both global streams untouched, outputs and the final state of generator i are
+    functions of its state *)
+Theorem rng_setter_isolated : forall (G O : Type) (out_unit : O) (i prot algo : nat) (e : env) (us : list (nat * (G -> O * G))),
+  (forall u, In u us -> fst u = prot \/ fst u = algo) ->
+  let p := rng_setter prot algo (LEx i) ++ uses us in
+  forall w, snd (run_obj out_unit p e w) LPy = w LPy /\ snd (run_obj out_unit p e w) LNp = w LNp /\
+    forall w', w' (LEx i) = w (LEx i) ->
+      fst (run_obj out_unit p e w') = fst (run_obj out_unit p e w) /\
+      snd (run_obj out_unit p e w') (LEx i) = snd (run_obj out_unit p e w) (LEx i).
+Proof.
+  intros G O u i prot algo e us H p. apply obj_explicit_isolated. apply rng_setter_only. exact H.
+Qed.
+Example rng_setter_hyps_satisfiable : forall u, In u [(0%nat, zuse); (1%nat, zuse); (0%nat, zuse)] -> fst u = 0%nat \/ fst u = 1%nat.
+Proof. intros u [<-|[<-|[<-|[]]]]; cbn; auto. Qed.
 
 (** non-vacuity of [only]: construct with generator 0, copy, copy the copy, use all three *)
 Example only_satisfiable : only 0 (fun _ => LNp) ([SNew 0 (LEx 0); SCopy 1 0; SCopy 2 1; SUse 1 zuse; SUse 2 zuse; SUse 0 zuse] : list (step Z Z)).
